@@ -201,6 +201,17 @@ def run_grid(case):
             bad("levels:memory-layout", f"sdepth on a {name_} bathymetry array (N={N} Vt={Vt}): z_w[0] != -h or differs from the result for the C-ordered copy")
         elif (r_ < -H2 - 1e-9 * H2.max()).any() or (r_ > 1e-9).any():
             bad("levels:memory-layout", f"sdepth on a {name_} bathymetry array: rho-levels outside [-h, 0]")
+    # integer-typed bathymetry (a Python int, an integer array): same levels as for the float values
+    for name_, Hi in (("python int", 100), ("int32 array", np.array([50, 100, 300], dtype=np.int32))):
+        try:
+            a = _sd(Hi, hc, Cw_, stagger="w", Vtransform=Vt)
+            b = _sd(np.asarray(Hi, dtype=float), hc, Cw_, stagger="w", Vtransform=Vt)
+        except Exception as e:
+            bad("levels:exception", f"sdepth with {name_} bathymetry: {e!r}")
+            continue
+        n += 1
+        if not np.allclose(np.asarray(a, float), b, rtol=0, atol=1e-9):
+            bad("levels:integer-bathymetry", f"sdepth with {name_} bathymetry (N={N} Vt={Vt}) differs from the float result by {np.abs(np.asarray(a, float) - b).max()}")
     for ths, thb in [(1.0, 0.5), (5.0, 0.1 if Vs == 1 else 2.0), (7.0, 1.0)]:
         w = world.World(imax=5, jmax=4, N=N, h=h, hc=hc, theta_s=ths, theta_b=thb, Vtransform=Vt, Vstretching=Vs)
         f = w.write_file(d / f"g_{ths}.nc", [dict(t=0, **w.zeros())])
@@ -216,6 +227,9 @@ def run_grid(case):
                 continue
             n += 1
             H = h[1:-1, 1:-1]
+            if np.asarray(g.z_r).shape != (N, *H.shape) or np.asarray(g.z_w).shape != (N + 1, *H.shape) or len(g.Cs_r) != N or len(g.Cs_w) != N + 1:
+                bad("levels:shape", f"{tag}: z_r {np.asarray(g.z_r).shape}, z_w {np.asarray(g.z_w).shape}, Cs_r {len(g.Cs_r)}, Cs_w {len(g.Cs_w)} for N={N} on a {H.shape} rectangle")
+                continue
             zr = np.asarray(g.z_r).reshape(N, -1)
             zw = np.asarray(g.z_w).reshape(N + 1, -1)
             check_levels(zr, zw, H.ravel(), tag, bad)
